@@ -36,9 +36,9 @@ SHAPE_SPECS = {
     "sigu": ("Sigmoid", [0.5, 8.0]),
     "sigd": ("Sigmoid", [0.5, -8.0]),
     "conc": ("Concave", [0.25, 0.75]),
-    "ssh": ("SShape", [0.0, 1.0]),
-    "zsh": ("ZShape", [0.0, 1.0]),
-    "arc": ("Arc", [0.0, 1.0]),
+    "ssh": ("SShape", [0.0, 2.0]),
+    "zsh": ("ZShape", [-1.0, 1.0]),
+    "arc": ("Arc", [0.0, 2.0]),  # radius 2: the inverse must scale with the radius
     "tri": ("Triangle", [0.0, 0.5, 1.0]),
     "gau": ("Gaussian", [0.5, 0.25]),
     "trap": ("Trapezoid", [0.0, 0.25, 0.5, 1.0]),
@@ -221,6 +221,56 @@ def run_seq(acc: Acc, real, ref, group: str, aggr_name, seq, impl_cache) -> None
                             f"{which}: Automatic gives {a}, {explicit} gives {e}")
 
 
+def run_paths(acc: Acc, real, ref, group: str, aggr_name, seq) -> None:
+    """Construction paths (all sequences of length <= 2): the kind given as an enum member or through configure()
+    instead of a string; the activations given as an iterator, or as a list the caller keeps using afterwards."""
+    aggr = getattr(fl, aggr_name)() if aggr_name else None
+    make = lambda: [fl.Activated(real[n], d, None) for n, d in seq]  # noqa: E731
+    case0 = {"group": group, "aggregation": aggr_name, "sequence": [list(s) for s in seq], "paths": True}
+    for which in WHICH:
+        for type_ in TYPES:
+            base = outcome_of(lambda: float(getattr(fl, which)(type_).defuzzify(fl.Aggregated("o", 0.0, 1.0, aggr, make()))))
+            case = {**case0, "defuzzifier": which, "type": type_}
+            variants = {}
+
+            def by_enum():
+                return float(getattr(fl, which)(fl.WeightedDefuzzifier.Type[type_]).defuzzify(fl.Aggregated("o", 0.0, 1.0, aggr, make())))
+
+            def by_configure():
+                d = getattr(fl, which)()
+                d.configure(type_)
+                return float(d.defuzzify(fl.Aggregated("o", 0.0, 1.0, aggr, make())))
+
+            def from_iterator():
+                agg = fl.Aggregated("o", 0.0, 1.0, aggr, iter(make()))
+                d = getattr(fl, which)(type_)
+                first = outcome_of(lambda: float(d.defuzzify(agg)))
+                second = outcome_of(lambda: float(d.defuzzify(agg)))
+                if first != second and not (first[0] == second[0] == "value" and close(first[1], second[1], 0.0, 0.0)):
+                    return ("unstable", first, second)
+                return first[1] if first[0] == "value" else first
+
+            def caller_list():
+                mine = make()
+                agg = fl.Aggregated("o", 0.0, 1.0, aggr, mine)
+                mine.append(fl.Activated(real[GROUPS[group][0]], 1.0, None))
+                mine.reverse()
+                del mine[:1]
+                return float(getattr(fl, which)(type_).defuzzify(agg))
+
+            for name, fn in (("enum", by_enum), ("configure", by_configure), ("iterator", from_iterator), ("caller-list", caller_list)):
+                got = outcome_of(fn)
+                if got[0] == "value" and isinstance(got[1], tuple) and got[1][0] == "raise":
+                    got = got[1]
+                variants[name] = got
+                acc.cls("construction_paths")
+                ok = got[0] == base[0] and ((got[0] == "raise" and got[1] == base[1]) or
+                                            (got[0] == "value" and not isinstance(got[1], tuple) and close(got[1], base[1], 0.0, 0.0)))
+                if not ok:
+                    acc.violate("construction-path", {"defuzzifier": which, "path": name}, {**case, "path": name}, base, str(got),
+                                f"{which}({type_}) on {case0['sequence']} built through '{name}' gives {got}, the plain construction {base}")
+
+
 def run_batch(acc: Acc, real, ref, group: str, aggr_name, pair) -> None:
     rows = [(0.25, 1.0), (0.5, 0.0), (1.0, 0.5), (0.0, 0.0), (0.0, 0.75)]
     if "ramph" in pair:
@@ -263,6 +313,9 @@ def run_shard(tier: str, seed: int, shard):
         for seq in itertools.product(atoms, repeat=L):
             acc.guard({"group": group, "aggregation": aggr_name, "sequence": [list(s) for s in seq]},
                       run_seq, acc, real, ref, group, aggr_name, seq, cache)
+            if 1 <= L <= 2:
+                acc.guard({"group": group, "aggregation": aggr_name, "sequence": [list(s) for s in seq], "paths": True},
+                          run_paths, acc, real, ref, group, aggr_name, seq)
     for pair in itertools.product(GROUPS[group], repeat=2):
         acc.guard({"group": group, "aggregation": aggr_name, "pair": list(pair), "batch": True},
                   run_batch, acc, real, ref, group, aggr_name, pair)
@@ -306,7 +359,10 @@ def replay(case: dict):
     def num(x):
         return float(x) if not isinstance(x, str) or x in ("nan", "inf", "-inf") else x
 
-    if "batch" in case:
+    if case.get("paths"):
+        seq = tuple((n, float(num(d))) for n, d in case["sequence"])
+        acc.guard(case, run_paths, acc, real, ref, case["group"], case["aggregation"], seq)
+    elif "batch" in case:
         acc.guard(case, run_batch, acc, real, ref, case["group"], case["aggregation"], tuple(case["pair"]))
     else:
         seq = tuple((n, float(num(d))) for n, d in case["sequence"])
